@@ -66,7 +66,7 @@ rows = []
 for f in sorted(glob.glob(f'{V}/evidence/C*.json')):
     e = json.load(open(f)); c = e['coverage']
     rows.append(f"| {e['property_id']} | {e['tier']} | {c.get('evaluations', 0):,} | {c.get('states', 0):,} | {c.get('transitions', 0):,} | {c.get('distinct_nontrivial', 0):,} | {str(c.get('exhaustive')).lower()} | {e['wall_s']:.1f} |")
-costs = ['Measured by the committed evidence files (16 cores; wall time excludes the incremental `cargo build`, about 8 s after an edit of `/repo`, 0.3 s otherwise; cold build of all dependencies about 25 s):\n',
+costs = ['Measured by the committed evidence files (16 cores; wall time includes the run of the second harness binary of §2.5 and excludes the incremental `cargo build` of the two binaries, about 15 s after an edit of `/repo`, 0.5 s otherwise; cold build of all dependencies, twice, about a minute):\n',
          '| property | tier | executions | states | transitions | distinct non-trivial | exhaustive | wall s |', '|---|---|---|---|---|---|---|---|'] + rows
 tp = f'{V}/tools/thorough_times.md'
 if os.path.exists(tp):
